@@ -33,6 +33,8 @@ OBLIGATIONS = [
     "Grog.C11.accepts_implies_valid",
     "Grog.C11.valid_implies_accepts",
     "Grog.C11.rejects_iff_defect",
+    "Grog.C11.verdict_order_independent",
+    "Grog.C11.reject_names_present_defect",
     "Grog.C11.reject_runs_nothing",
     "Grog.C11.executes_iff",
     "Grog.C11.findCycle_sound",
